@@ -1,6 +1,6 @@
 SPECIFICATION Spec
 CONSTANTS
- Fam = "ip"
+ Fams = {"sqp", "sqn"}
  P <- PThorough
 INVARIANTS Theorems Emit
 CHECK_DEADLOCK FALSE
